@@ -299,6 +299,8 @@ def run(ck):
                 if sc is None and o[0] == "compile-panic" and re.search(r"value function \d+ not found|failed to find upvalue", o[1]) \
                         and side_predicates.assignment_to_lambda_bound_name(src):
                     sc = "T4b"
+                if sc is None and o[0] == "compile-panic" and side_predicates.match_arm_value_is_lambda(src, o[1]):
+                    sc = "ML"
                 hit = [sc] if (sc and sc in findings) else [c for c in ("F3", "F40", "F41") if c in cls and c in findings]
                 if hit:
                     bump(be + "_panic_in_known_class_" + hit[0]); ck.known(findings[hit[0]], kind + " " + src.replace("\n", " ")[:120])
